@@ -175,6 +175,107 @@ theorem startsWith_eq {s : St} (h : Inv s) {v w : Nat} {r : Bool} (e : startsWit
     simp only [beq_iff_eq]
     exact eq_comm
 
+theorem rd_mid {s : St} (h : Inv s) {w : Nat} {d : Desc} (hd : desc s w = some d) {a k : Nat}
+    (hk : a + k ≤ d.len) : rdRange s d.base (d.off + a) k = some (((absVar s w).drop a).take k) := by
+  have hall := rd_all h hd
+  simp only [rdRange, Option.bind_eq_bind] at hall ⊢
+  cases hm : memOf s d.base with
+  | none => simp [hm] at hall
+  | some mm =>
+    simp only [hm, Option.bind_some, rdList] at hall ⊢
+    split at hall
+    · rename_i c
+      injection hall with hall
+      have : d.off + a + k ≤ mm.length := by omega
+      simp only [this, if_true]
+      rw [← hall]
+      simp only [List.drop_take, List.drop_drop, List.take_take]
+      congr 2
+      omega
+    · cases hall
+
+/-- `endsWith` decides whether the argument's value is a suffix of the value -/
+theorem endsWith_eq {s : St} (h : Inv s) {v w : Nat} {r : Bool} (e : endsWith s v w = some r) {a b : List Nat}
+    (ha : allSome (absVar s v) = some a) (hb : allSome (absVar s w) = some b) : (r = true ↔ b <:+ a) := by
+  obtain ⟨dv, hdv⟩ := desc_some h v
+  obtain ⟨dw, hdw⟩ := desc_some h w
+  have lv : dv.len = a.length := by rw [desc_len h hdv, allSome_eq ha, List.length_map]
+  have lw : dw.len = b.length := by rw [desc_len h hdw, allSome_eq hb, List.length_map]
+  simp only [endsWith, hdv, hdw, Option.bind_eq_bind, Option.bind_some] at e
+  by_cases c : dv.len < dw.len
+  · simp only [c, if_true, Option.pure_def, Option.some.injEq] at e
+    subst e
+    constructor
+    · intro x; cases x
+    · intro x; have := x.length_le; omega
+  · simp only [c, if_false] at e
+    have eo : dv.off + dv.len - dw.len = dv.off + (dv.len - dw.len) := by omega
+    rw [eo, rd_mid h hdv (by omega), allSome_eq ha, ← List.map_drop, ← List.map_take] at e
+    simp only [Option.bind_some, allSome_map, contentVal_eq h, hb, Option.pure_def, Option.some.injEq] at e
+    subst e
+    rw [List.suffix_iff_eq_drop, lv, lw]
+    simp only [beq_iff_eq]
+    have : List.take b.length (List.drop (a.length - b.length) a) = List.drop (a.length - b.length) a := by
+      apply List.take_of_length_le
+      simp only [List.length_drop]; omega
+    rw [this]
+    exact eq_comm
+
+theorem findLastOf_eq {s s' : St} (h : Inv s) {v : Nat} (hv : v < s.n) {chars : List Nat} {r : Option Nat}
+    (e : findLastOf s v chars = some (s', r)) {c : List Nat} (hc : allSome (absVar s v) = some c)
+    (hz : ∀ x ∈ c, x ≠ 0) : LastOf c chars r ∧ ∀ w, absVar s' w = absVar s w := by
+  simp only [findLastOf, Option.bind_eq_bind, Option.bind_eq_some_iff, Option.pure_def, Option.some.injEq,
+    Prod.mk.injEq] at e
+  obtain ⟨s1, h1, hh, h2, rfl, rfl⟩ := e
+  obtain ⟨E, t⟩ := eff_cview h hv h1
+  have := cstrVar_eq E.inv t (by rw [E.self]; exact hc) hz
+  rw [this] at h2
+  injection h2 with h2
+  subst h2
+  exact ⟨findLastOf_spec _ _, E.silent.abs⟩
+
+/-- the searches with a start index look at the rest of the value from `start` -/
+theorem findFrom_eq {s : St} (h : Inv s) {v : Nat} (hv : v < s.n) {c : List Nat}
+    (hc : allSome (absVar s v) = some c) (hz : 0 ∉ c) (needle : List Nat) (st : Nat) :
+    (∀ s' r, findSFrom s v needle st = some (s', r) →
+      r = (if st ≥ c.length then none else (strstrL (c.drop st) needle).map (· + st)) ∧ ∀ w, absVar s' w = absVar s w) ∧
+    (∀ s' r, findOneOfFrom s v needle st = some (s', r) →
+      r = (if st ≥ c.length then none else (strpbrkL (c.drop st) needle).map (· + st)) ∧ ∀ w, absVar s' w = absVar s w) := by
+  obtain ⟨d, hd⟩ := desc_some h v
+  have hlen := desc_len h hd
+  have hcl : c.length = d.len := by rw [hlen, allSome_eq hc, List.length_map]
+  constructor
+  · intro s' r e
+    simp only [findSFrom, hd, Option.bind_eq_bind, Option.bind_some] at e
+    by_cases c1 : st ≥ d.len
+    · simp only [c1, if_true, Option.pure_def, Option.some.injEq, Prod.mk.injEq] at e
+      rw [← e.1, ← e.2]
+      have : st ≥ c.length := by omega
+      exact ⟨by simp only [this, if_true], fun _ => rfl⟩
+    · simp only [c1, if_false, Option.bind_eq_some_iff, Option.pure_def, Option.some.injEq, Prod.mk.injEq] at e
+      obtain ⟨s2, h2, hh, h3, e⟩ := e
+      obtain ⟨E, t⟩ := eff_cview h hv h2
+      have := cstrVar_from E.inv t (by rw [E.self]; exact hc) (nulFree_of hz) (start := st) (by omega)
+      rw [this] at h3; injection h3 with h3; subst h3
+      rw [← e.1, ← e.2]
+      have : ¬ st ≥ c.length := by omega
+      exact ⟨by simp only [this, if_false], E.silent.abs⟩
+  · intro s' r e
+    simp only [findOneOfFrom, hd, Option.bind_eq_bind, Option.bind_some] at e
+    by_cases c1 : st ≥ d.len
+    · simp only [c1, if_true, Option.pure_def, Option.some.injEq, Prod.mk.injEq] at e
+      rw [← e.1, ← e.2]
+      have : st ≥ c.length := by omega
+      exact ⟨by simp only [this, if_true], fun _ => rfl⟩
+    · simp only [c1, if_false, Option.bind_eq_some_iff, Option.pure_def, Option.some.injEq, Prod.mk.injEq] at e
+      obtain ⟨s2, h2, hh, h3, e⟩ := e
+      obtain ⟨E, t⟩ := eff_cview h hv h2
+      have := cstrVar_from E.inv t (by rw [E.self]; exact hc) (nulFree_of hz) (start := st) (by omega)
+      rw [this] at h3; injection h3 with h3; subst h3
+      rw [← e.1, ← e.2]
+      have : ¬ st ≥ c.length := by omega
+      exact ⟨by simp only [this, if_false], E.silent.abs⟩
+
 /-! ### the queries do not fault on specified, NUL-free values -/
 
 theorem views2_some {s : St} (h : Inv s) {v w : Nat} (hv : v < s.n) (hw : w < s.n) {a b : List Nat}
